@@ -65,7 +65,28 @@ func TestVerifC05TaskRunner(t *testing.T) {
 					refused++
 				}
 			} else {
-				tr.Schedule(task)
+				// Schedule blocks while all slots are taken.  Every task here is short, so a Schedule that
+				// stays blocked although no task has been inside its body for 5 s on end can only mean
+				// that slots are held by nobody: capacity leaked ("after all holders have finished,
+				// including by panic, the full capacity is available again").
+				admitted := make(chan struct{})
+				go func() { tr.Schedule(task); close(admitted) }()
+				idleSince := time.Time{}
+			wait:
+				for {
+					select {
+					case <-admitted:
+						break wait
+					case <-time.After(5 * time.Millisecond):
+					}
+					if atomic.LoadInt64(&cur) != 0 {
+						idleSince = time.Time{}
+					} else if idleSince.IsZero() {
+						idleSince = time.Now()
+					} else if time.Since(idleSince) > 5*time.Second {
+						t.Fatalf("capacity leaked: Schedule #%d blocked for 5 s although no task is running (n=%d, %d tasks ran so far, some panicking)", i+1, n, atomic.LoadInt64(&ran))
+					}
+				}
 			}
 		}
 		done := make(chan struct{})
